@@ -23,6 +23,7 @@ HEAP_FIELDS = {
     "start": (I, "int"),
     "end": (I, "int"),
     "parent": (I, "ref"),
+    "own": (I, "ref"),  # GHOST: the top-level node of the pre-assembled structure a node was allocated in (never written by code)
 }
 
 
@@ -56,6 +57,7 @@ class State:
         self.facts_seen: set = set()
         self.ghost_names: set = set()
         self.in_binder = 0
+        self.bound: dict = {}
 
     def clone(self) -> "State":
         s = State()
@@ -70,6 +72,7 @@ class State:
         s.facts_seen = set(self.facts_seen)
         s.ghost_names = set(self.ghost_names)
         s.in_binder = self.in_binder
+        s.bound = dict(self.bound)
         return s
 
     def assume(self, *conds):
@@ -232,6 +235,11 @@ class Exec:
 
     # ------------------------------------------------------------------ obligations
     def oblige(self, st: State, kind: str, anchor: str, goal, line=0, extra_hyps=(), note="", model_vars=None):
+        parts = split_goal(goal)
+        if len(parts) > 1:
+            for k, p in enumerate(parts):
+                self.oblige(st, kind, f"{anchor}.{k}", p, line, extra_hyps, note, model_vars)
+            return
         name = f"{self.qualname}/{kind}/{anchor}"
         # several paths may reach the same anchor: number them
         n = sum(1 for o in self.obligations if o.name == name or o.name.startswith(name + "#"))
@@ -316,6 +324,8 @@ class Exec:
         self.uses_heap = self.c.fresh_nodes or self.c.modifies is not None or any(isinstance(v, VRef) or (isinstance(v, VList) and v.ek == "ref") for v in st.store.values()) or "Node" in ast.unparse(self.fn)
         if self.uses_heap:
             self.heap_wf_assumptions(st)
+        for nm, src in self.c.defs.items():
+            st.store[nm] = VFunc(ast.parse(src.strip(), mode="eval").body, {}, nm)
         entry = st.clone()
         st.old = entry
         self.entry = entry
@@ -661,6 +671,14 @@ class Exec:
                 st.alloc = a
             else:
                 st.heap[f] = fresh(f"H_{f}@{tag}", st.heap[f].sort())
+        if heap_fields:
+            self.heap_type_invariants(st)
+
+    def heap_type_invariants(self, st: State):
+        """Type invariants of the encoding, re-assumed whenever heap arrays are replaced by fresh ones."""
+        r = fresh("r", I)
+        h = st.heap
+        st.assume(z3.ForAll([r], z3.Implies(z3.And(0 <= r, r < st.alloc), z3.And(h["nchildren"][r] >= 0, h["parent"][r] >= -1, h["parent"][r] < st.alloc))))
 
     def fresh_like(self, v: V, name: str, st: State) -> V:
         if isinstance(v, VInt):
@@ -718,6 +736,8 @@ class Exec:
             st.store[g] = gv
             st.ghost_names.add(g)
         pre = st.clone()
+        st.labels = dict(st.labels)
+        st.labels[f"pre_{tag}"] = pre
         # ---- invariant holds on entry
         for nm, e in spec.inv.items():
             self.oblige(st, f"inv/{tag}/init", nm, self.spec_bool(e, st), stmt.lineno)
@@ -735,7 +755,8 @@ class Exec:
             head.assume(0 <= i, i <= it["n"])
             if it.get("owner") is not None and ("children" in hw or "nchildren" in hw):
                 # iterating over a heap list: it must be unchanged at the loop head (checked at the latch)
-                head.assume(head.heap["nchildren"][it["owner"]] == it["n"], head.heap["children"][it["owner"]] == it["arr"])
+                kk = fresh("k", I)
+                head.assume(head.heap["nchildren"][it["owner"]] == it["n"], z3.ForAll([kk], z3.Implies(z3.And(0 <= kk, kk < it["n"]), head.heap["children"][it["owner"]][kk] == it["arr"][kk])))
         for nm, e in spec.inv.items():
             head.assume(self.spec_bool(e, head))
         for hnt in spec.hints:
@@ -777,9 +798,11 @@ class Exec:
                         s,
                         f"inv/{tag}/preserve",
                         "iterated-list-unchanged",
-                        z3.And(s.heap["nchildren"][it["owner"]] == it["n"], s.heap["children"][it["owner"]] == it["arr"]),
+                        z3.And(s.heap["nchildren"][it["owner"]] == it["n"], z3.ForAll([kq := fresh("k", I)], z3.Implies(z3.And(0 <= kq, kq < it["n"]), s.heap["children"][it["owner"]][kq] == it["arr"][kq]))),
                         stmt.lineno,
                     )
+                for nm, e in spec.transition.items():
+                    self.oblige(s, f"step/{tag}", nm, self.spec_bool(e, s, extra={"old": head_snapshot}), stmt.lineno)
                 if spec.variant is not None:
                     v0 = self.spec_val(spec.variant, head_snapshot).z
                     v1 = self.spec_val(spec.variant, s).z
@@ -876,7 +899,7 @@ class Exec:
 
     def typed_empty(self, ek):
         arr = z3.K(I, z3.IntVal(0)) if ek in ("int", "ref") else z3.K(I, z3.StringVal(""))
-        return VList(arr, z3.IntVal(0), ek, None, z3.StringVal("") if ek == "int" else None)
+        return VList(arr, z3.IntVal(0), ek, None, z3.StringVal("") if ek in ("int", "bytes") else None)
 
     def assign(self, t, v: V, st: State):
         if isinstance(t, ast.Name):
@@ -932,6 +955,13 @@ class Exec:
     # ------------------------------------------------------------------ heap
     def heap_load(self, r: VRef, f: str, st: State) -> V:
         self.raise_if(st, r.z == -1, "AttributeError", f"None.{f}")
+        if self.c.reads and not getattr(self, "spec_mode", False) and self.call_depth == 0:
+            for pname, allowed in self.c.reads.items():
+                if f not in allowed and f != "original":
+                    p0 = self.entry.store[pname]
+                    rs = z3.simplify(r.z == p0.z)
+                    if not z3.is_false(rs):
+                        self.oblige(st, "frame/read", f"{pname}.{f}@L{getattr(self, 'cur_line', 0) - self.fn.lineno}", r.z != p0.z, getattr(self, "cur_line", 0))
         if f == "children":
             return VList(st.heap["children"][r.z], st.heap["nchildren"][r.z], "ref", owner=r.z)
         if f in HEAP_FIELDS:
@@ -1173,6 +1203,9 @@ class Exec:
             st.guards.pop()
         if all(isinstance(v, VBool) for v in vals):
             return VBool((z3.And if is_and else z3.Or)(*[v.z for v in vals]))
+        if len({v.kind for v in vals}) > 1:
+            # operands of different kinds: only the truth value is meaningful (conditions)
+            return VBool((z3.And if is_and else z3.Or)(*[self.truthy(v, st) for v in vals]))
         # value-returning and/or
         res = vals[-1]
         for v in reversed(vals[:-1]):
@@ -1229,8 +1262,8 @@ class Exec:
             if z3.is_int_value(nb) and nb.as_long() <= 4:
                 arr = a.arr
                 for i in range(nb.as_long()):
-                    arr = z3.Store(arr, a.n + i, b.arr[i])
-                return VList(arr, a.n + nb, a.ek)
+                    arr = z3.Store(arr, z3.simplify(a.n + i), z3.simplify(b.arr[i]))
+                return VList(arr, z3.simplify(a.n + nb), a.ek)
             k = fresh("k", I)
             return VList(z3.Lambda([k], z3.If(k < a.n, a.arr[k], b.arr[k - a.n])), a.n + b.n, a.ek)
         if isinstance(a, VBytes) and isinstance(b, VInt) and isinstance(op, ast.Mult):
@@ -1259,6 +1292,12 @@ class Exec:
             a = VInt(z3.If(a.z, 1, 0))
         if isinstance(b, VBool) and isinstance(a, VInt):
             b = VInt(z3.If(b.z, 1, 0))
+        if getattr(self, "spec_mode", False):
+            # specifications may compare references with allocation counters
+            if isinstance(a, VRef) and isinstance(b, VInt):
+                a = VInt(a.z)
+            if isinstance(b, VRef) and isinstance(a, VInt):
+                b = VInt(b.z)
         if isinstance(op, (ast.Eq, ast.NotEq)):
             r = self.equal(a, b, st)
             return r if isinstance(op, ast.Eq) else z3.Not(r)
@@ -1315,6 +1354,8 @@ class Exec:
             if getattr(self, "spec_mode", False) or c is None:
                 return a.z == b.z  # in specifications `==` on nodes is reference equality; use tree_eq() for structure
             return self.apply_contract(c, [a, b], {}, st).z
+        if isinstance(a, VObj) and isinstance(b, VObj):
+            return z3.BoolVal(a is b)
         if isinstance(a, VTuple) and isinstance(b, VTuple):
             if len(a.items) != len(b.items):
                 return z3.BoolVal(False)
@@ -1553,14 +1594,25 @@ class Exec:
     def inline_lambda(self, fn: VFunc, args, st: State) -> V:
         params = [a.arg for a in fn.node.args.args]
         saved = st.store
-        st.store = dict(fn.closure)
-        st.store.update({k: v for k, v in saved.items() if k not in st.store})
+        if fn.closure:
+            st.store = dict(fn.closure)  # a real lambda: names resolve in the scope that created it
+            for k, v in saved.items():
+                if k in st.store and k in getattr(st, "bound", {}):
+                    st.store[k] = v
+        else:
+            st.store = dict(saved)  # a contract macro: sees the current state
+        saved_bound = st.bound
+        if not fn.closure:
+            st.bound = dict(st.bound)
         for p, a in zip(params, args):
             st.store[p] = a
+            if not fn.closure:
+                st.bound[p] = a  # macro parameters stay visible inside old(...) / at(...)
         try:
             return self.eval(fn.node.body, st)
         finally:
             st.store = saved
+            st.bound = saved_bound
 
     def try_statement_call(self, value, st: State):
         """`x = f(...)` / `return f(...)` / `f(...)` where f is a repo function WITHOUT a contract or a nested def:
@@ -1679,6 +1731,11 @@ class Exec:
                 b[p] = self.eval(d, st)
             else:
                 raise Unsupported(f"missing argument {p} for {c.qualname}")
+            t = (c.types.get(p) or "").replace(" ", "")
+            if t.startswith("list[") and isinstance(b[p], VNone):
+                b[p] = self.typed_empty({"int": "int", "bytes": "bytes", "Node": "ref", "str": "str"}[t[5:-1]])
+            if t.startswith("list[") and isinstance(b[p], VList) and b[p].ek is None:
+                b[p] = self.typed_empty({"int": "int", "bytes": "bytes", "Node": "ref", "str": "str"}[t[5:-1]])
         return b
 
     def apply_contract(self, c: Contract, args, kwargs, st: State) -> V:
@@ -1688,11 +1745,20 @@ class Exec:
         # --- requires (callee's precondition is the caller's obligation)
         pre_view = st.clone()
         pre_view.store = dict(b)
+        for nm_, src_ in c.defs.items():
+            pre_view.store[nm_] = VFunc(ast.parse(src_.strip(), mode="eval").body, {}, nm_)
         pre_view.old = pre_view
         pre_view.guards = list(st.guards)
         short = c.qualname.split(".", 1)[1]
         for nm, e in c.requires.items():
             self.oblige(pre_view, "pre", f"{short}/{nm}@L{getattr(self, 'cur_line', 0) - self.fn.lineno}", self.spec_bool(e, pre_view), getattr(self, "cur_line", 0))
+        cs = self.c.call_site.get(c.qualname.split(".")[-1])
+        if cs and not getattr(self, "spec_mode", False):
+            v2 = st.clone()
+            for k_, v_ in b.items():
+                v2.store["callee_" + k_] = v_
+            for nm, e in cs.items():
+                self.oblige(v2, "callsite", f"{c.qualname.split('.')[-1]}/{nm}@L{getattr(self, 'cur_line', 0) - self.fn.lineno}", self.spec_bool(e, v2), getattr(self, "cur_line", 0))
         # --- termination of recursion
         if c.qualname == self.qualname and c.decreases:
             d0 = self.spec_val(c.decreases, self.entry)
@@ -1738,10 +1804,14 @@ class Exec:
                 st.assume(z3.ForAll([r], z3.Implies(z3.And(0 <= r, r < old_alloc), newarr[r] == st.heap[fld][r])))
                 st.heap[fld] = newarr
             st.alloc = a
+        if c.modifies or c.fresh_nodes:
+            self.heap_type_invariants(st)
         # --- result + ensures
         res = self.result_symbol(c, st)
         post_view = st.clone()
         post_view.store = dict(b)
+        for nm_, src_ in c.defs.items():
+            post_view.store[nm_] = VFunc(ast.parse(src_.strip(), mode="eval").body, {}, nm_)
         post_view.store["result"] = res
         post_view.old = pre_view
         post_view.guards = []
@@ -1828,6 +1898,26 @@ class Exec:
         if isinstance(ret, tuple):
             raise Unsupported("tuple-valued spec function")
         return elem_val(ret, z)
+
+
+def split_goal(g, depth=0):
+    """One query per clause: split top-level conjunctions, also under a universal quantifier / implication."""
+    if depth > 3:
+        return [g]
+    if z3.is_and(g):
+        out = []
+        for c in g.children():
+            out.extend(split_goal(c, depth + 1))
+        return out
+    if z3.is_implies(g) and z3.is_and(g.arg(1)):
+        return [z3.Implies(g.arg(0), c) for c in split_goal(g.arg(1), depth + 1)]
+    if z3.is_quantifier(g) and g.is_forall():
+        b = g.body()
+        if z3.is_implies(b) and z3.is_and(b.arg(1)) or z3.is_and(b):
+            vs = [z3.Const(f"{g.var_name(i)}", g.var_sort(i)) for i in range(g.num_vars())]
+            inst = z3.substitute_vars(b, *reversed(vs))
+            return [z3.ForAll(vs, c) for c in split_goal(inst, depth + 1)]
+    return [g]
 
 
 _idc = [0]
